@@ -227,14 +227,24 @@ def gen(tier, seed, info):
         kinds[mode] += 1
         if odd:
             kinds["odd_ids_events"] += 1
-        # keep the number of invocations small: nested emits multiply (bindings x emits per script) per level
+        # keep the number of invocations small (the harness caps them at 3000): one emit at depth d invokes at most
+        # f(d) = nb handlers, each of which (while d < depth limit) emits at most em times at depth d+1
         sc = scripts9(d)
         toks = all_toks(sc, ops)
         nb = max(1, sum(1 for x in toks if x[0] == "b"))
-        em = max([sum(1 for a in x.split("/")[2].split(",") if a[0] in "ew") for x in sc] + [1])
+        em = max([sum(1 for a in x.split("/")[2].split(",") if a[0] in "ew") for x in sc] + [0])
+        ne = max(1, sum(1 for x in ops if x[0] in "ewux"))
+
+        def f(dep, lim):
+            return nb if dep >= lim else nb * (1 + em * f(dep + 1, lim))
         md = rnd.choice([1, 2, 2, 3, 3, 4])
-        while md > 1 and (nb * em) ** md > 500:
+        while md > 1 and ne * f(0, md) > 2000:
             md -= 1
+        if ne * f(0, md) > 2000:
+            kinds[mode] -= 1
+            if odd:
+                kinds["odd_ids_events"] -= 1
+            return rand_case()
         return line(mode, md, sc, ops)
     for _ in range(nrand):
         yield rand_case()
